@@ -746,6 +746,8 @@ class Interp:
         if k == 'value':
             m = self.prog.modules[r[1]]
             node = m.assigns[r[2]]
+            if r[2] in m.multi:
+                return ('global', r[1] + '.' + r[2])
             if _depth > 4:
                 return ('global', r[1] + '.' + r[2])
             f = Frame(m, None, None, None, 50, '<module %s>' % r[1])
@@ -773,18 +775,24 @@ class Interp:
         return None
 
     def getattr_term(self, base, name, frame, cond, depth=None):
-        k = base[0]
+        # see through functional updates: the receiver stays `base`
+        root = base
+        while root[0] == 'upd':
+            if root[2] == 'attr' and root[3] == name:
+                return root[4]
+            root = root[1]
+        k = root[0]
         if k == 'modref':
-            sub = base[1] + '.' + name
+            sub = root[1] + '.' + name
             if sub in self.prog.modules:
                 return ('modref', sub)
-            if base[1] in self.prog.modules:
-                return self.entity(self.prog.resolve_name(base[1], name))
+            if root[1] in self.prog.modules:
+                return self.entity(self.prog.resolve_name(root[1], name))
             return ('extref', sub)
         if k == 'extref':
-            return ('extref', base[1] + '.' + name)
+            return ('extref', root[1] + '.' + name)
         if k == 'classref':
-            hit = self.prog.lookup(base[1], name) if base[1] in self.prog.classes \
+            hit = self.prog.lookup(root[1], name) if root[1] in self.prog.classes \
                 else None
             if hit:
                 kind, owner, node = hit
@@ -792,27 +800,19 @@ class Interp:
                     c = self.prog.classes[owner]
                     decos = c.decorators.get(name, [])
                     if 'classmethod' in decos:
-                        return ('method', owner, name, base)
+                        return ('method', owner, name, root)
                     return ('funcref', owner + '.' + name)
                 if kind == 'classattr':
                     return self.eval_classattr(owner, node)
-            return ('attr', base, name)
-        if k == 'upd':
-            if base[2] == 'attr':
-                if base[3] == name:
-                    return base[4]
-                return self.getattr_term(base[1], name, frame, cond)
-            # item update: attribute reads see the same object
-            inner = self.getattr_term(base[1], name, frame, cond)
-            return inner
+            return ('attr', root, name)
         if k == 'ite':
-            a = self.getattr_term(base[2], name, frame, cond)
-            b = self.getattr_term(base[3], name, frame, cond)
-            return a if a == b else ('ite', base[1], a, b)
-        cq = self.class_of(base)
+            a = self.getattr_term(root[2], name, frame, cond)
+            b = self.getattr_term(root[3], name, frame, cond)
+            return a if a == b else ('ite', root[1], a, b)
+        cq = self.class_of(root)
         if cq is not None and cq in self.prog.classes:
-            if base[0] == 'new' and self.inline_new:
-                fields = self.instance_fields(base, frame)
+            if root[0] == 'new' and self.inline_new:
+                fields = self.instance_fields(root, frame)
                 if fields is not None and name in fields:
                     return fields[name]
             hit = self.prog.lookup(cq, name)
@@ -836,7 +836,7 @@ class Interp:
                     return ('attr', base, name)
                 if kind == 'classattr':
                     return self.eval_classattr(owner, node)
-        return ('attr', base, name)
+        return ('attr', root, name)
 
     def eval_classattr(self, owner, node):
         m = self.prog.classes[owner].module
@@ -1028,6 +1028,16 @@ class Interp:
     def e_Slice(self, e, env, frame, cond):
         return self.eval_slice(e, env, frame, cond)
 
+    def e_Yield(self, e, env, frame, cond):
+        v = NONE if e.value is None else self.eval(e.value, env, frame, cond)
+        self.effect('yield', frame, e, cond, value=v)
+        return NONE
+
+    def e_YieldFrom(self, e, env, frame, cond):
+        v = self.eval(e.value, env, frame, cond)
+        self.effect('yield-from', frame, e, cond, value=v)
+        return NONE
+
     def e_Lambda(self, e, env, frame, cond):
         key = self.fresh()
         self.closures[key] = (e, dict(env), frame)
@@ -1105,6 +1115,7 @@ class Interp:
         # super()
         f = e.func
         pos = []
+        pos_nodes = []
         for a in e.args:
             v = self.eval(a, env, frame, cond)
             if isinstance(a, ast.Starred):
@@ -1112,14 +1123,20 @@ class Interp:
                 items = self.iter_items(inner)
                 if items is not None:
                     pos.extend(items)
+                    pos_nodes.extend([None] * len(items))
                 else:
                     pos.append(('star', inner))
+                    pos_nodes.append(None)
             else:
                 pos.append(v)
+                pos_nodes.append(a)
         kws = {}
+        kw_nodes = {}
         star_kw = []
         for k in e.keywords:
             v = self.eval(k.value, env, frame, cond)
+            if k.arg is not None:
+                kw_nodes[k.arg] = k.value
             if k.arg is None:
                 if v[0] == 'dict' and all(kk[0] == 'const' and isinstance(kk[1], str)
                                           for kk, _ in v[1]):
@@ -1144,9 +1161,13 @@ class Interp:
                 ft = ('method', hit[1], f.attr, selft)
             else:
                 ft = ('attr', ('call', 'super', (), ()), f.attr)
+            recv = ast.Name(id=frame.selfname, ctx=ast.Load(),
+                            lineno=e.lineno) if frame.selfname else None
         else:
             ft = self.eval(f, env, frame, cond)
-        return self.apply(ft, pos, kws, frame, cond, e, env)
+            recv = f.value if isinstance(f, ast.Attribute) else None
+        return self.apply(ft, pos, kws, frame, cond, e, env,
+                          wb=(recv, pos_nodes, kw_nodes))
 
     def record_call(self, name, pos, kws, frame, node, cond):
         self.calls.append(dict(name=name, args=tuple(pos),
@@ -1154,7 +1175,7 @@ class Interp:
                                func=frame.qual, module=frame.module.relpath,
                                lineno=getattr(node, 'lineno', 0), cond=cond))
 
-    def apply(self, ft, pos, kws, frame, cond, node=None, env=None):
+    def apply(self, ft, pos, kws, frame, cond, node=None, env=None, wb=None):
         k = ft[0]
         if k == 'funcref':
             qual = ft[1]
@@ -1163,7 +1184,8 @@ class Interp:
                 fd = self.prog.func(qual)
                 owner = qual.rpartition('.')[0]
                 owner = owner if owner in self.prog.classes else None
-                return self.inline(qual, fd, owner, owner, pos, kws, frame, cond)
+                return self.inline(qual, fd, owner, owner, pos, kws, frame, cond,
+                                   wb=wb and (None, wb[1], wb[2]), cenv=env)
             return ('call', qual, tuple(pos), tuple(sorted(kws.items())))
         if k == 'method':
             _, owner, name, selft = ft
@@ -1174,7 +1196,9 @@ class Interp:
                 selfcls = self.class_of(selft) or (
                     selft[1] if selft[0] == 'classref' else owner)
                 return self.inline(qual, fd, owner, selfcls, [selft] + list(pos),
-                                   kws, frame, cond)
+                                   kws, frame, cond,
+                                   wb=wb and (None, [wb[0]] + list(wb[1]), wb[2]),
+                                   cenv=env)
             return ('call', ('attr', selft, name), tuple(pos),
                     tuple(sorted(kws.items())))
         if k == 'classref':
@@ -1217,6 +1241,24 @@ class Interp:
             if ft[2] in MUTATORS:
                 self.effect('mutcall', frame, node, cond, base=ft[1],
                             method=ft[2], args=tuple(pos))
+                if wb is not None and env is not None and isinstance(
+                        wb[0], (ast.Name, ast.Attribute, ast.Subscript)):
+                    base = ft[1]
+                    newv = None
+                    if base[0] == 'list' and ft[2] == 'append' and len(pos) == 1:
+                        newv = ('list', base[1] + (pos[0],))
+                    elif base[0] == 'list' and ft[2] == 'extend' and len(pos) == 1 \
+                            and pos[0][0] in ('list', 'tuple'):
+                        newv = ('list', base[1] + pos[0][1])
+                    elif base[0] == 'dict' and ft[2] == 'update' and len(pos) == 1 \
+                            and pos[0][0] == 'dict' and not kws:
+                        d = dict(base[1])
+                        d.update(dict(pos[0][1]))
+                        newv = ('dict', tuple(d.items()))
+                    if newv is None:
+                        newv = ('mut', base, ft[2], tuple(pos),
+                                tuple(sorted(kws.items())))
+                    self._store_back(wb[0], intern(newv), env, frame, cond)
         else:
             self.record_call('<term>', pos, kws, frame, node, cond)
         return ('call', ft, tuple(pos), tuple(sorted(kws.items())))
@@ -1234,7 +1276,21 @@ class Interp:
             return False
         return True
 
-    def inline(self, qual, fd, owner, selfcls, pos, kws, frame, cond):
+    @staticmethod
+    def _rooted(fin, init):
+        t = fin
+        while True:
+            if t is init:
+                return True
+            if t[0] == 'upd':
+                t = t[1]
+            elif t[0] == 'ite':
+                return Interp._rooted(t[2], init) and Interp._rooted(t[3], init)
+            else:
+                return False
+
+    def inline(self, qual, fd, owner, selfcls, pos, kws, frame, cond, wb=None,
+               cenv=None):
         module = self.prog.module_of(qual)
         if any(isinstance(n, (ast.Yield, ast.YieldFrom)) for n in ast.walk(fd)):
             return ('call', qual, tuple(pos), tuple(sorted(kws.items())))
@@ -1254,7 +1310,27 @@ class Interp:
             if o.kind == 'raise':
                 self.effect('inlined-raise', fr, fd, cond + o.cond, exc=o.value,
                             callee=qual)
-        t = combine([o for o in rel if o.kind in ('return', 'fall')])
+        normal = [o for o in rel if o.kind in ('return', 'fall')]
+        t = combine(normal)
+        if wb is not None and cenv is not None and normal:
+            # propagate in-place updates of arguments back to the caller
+            names = [a.arg for a in fd.args.posonlyargs + fd.args.args]
+            pairs = []
+            for i, nd in enumerate(wb[1]):
+                if nd is not None and i < len(names):
+                    pairs.append((names[i], nd))
+            for k, nd in wb[2].items():
+                pairs.append((k, nd))
+            fin_env = normal[0].env if len(normal) == 1 else \
+                self.merge_by_cond(normal, ())
+            for pname, nd in pairs:
+                if not isinstance(nd, (ast.Name, ast.Attribute, ast.Subscript)):
+                    continue
+                init, fin = env.get(pname), fin_env.get(pname)
+                if init is None or fin is None or fin is init:
+                    continue
+                if self._rooted(fin, init):
+                    self._store_back(nd, fin, cenv, frame, cond)
         return t
 
     def inline_closure(self, node_c, cenv, cframe, pos, kws, frame, cond):
